@@ -436,11 +436,11 @@ CHECK = {"hooke_default": check_elastic, "hooke_brick": check_elastic, "implicit
 
 def check_case(case):
     prog, call = case["prog"], case["call"]
-    if call is None:
-        raise Reject()
-    lib, err = gb.build(prog)
+    lib, err = bt.build(gb, prog)
     if lib is None:
         return Result(False, "C41.harness.build", "program does not build: " + err)
+    if call is None:
+        raise Reject()
     return CHECK[prog["kind"]](prog, call, lib)
 
 
@@ -471,7 +471,7 @@ def main():
             p["name"] = "%ss%d" % (p["name"], SEED % 100000)
             p = bt.make_program(p)
             progs.append((p, max(5, int(cases * share / k))))
-    built = parallel_map(lambda pc: gb.build(pc[0]), progs, jobs=min(JOBS, 16))
+    built = parallel_map(lambda pc: bt.build(gb, pc[0]), progs, jobs=min(JOBS, 16))
     for (p, ncases), (lib, err) in zip(progs, built):
         if lib is None:
             u.fail(p["kind"], "C41.harness.build", "generated program rejected by mfront/g++: " + err,
